@@ -190,6 +190,24 @@ Blt(gs, gd, sx, sy, dx, dy, w, h, ret) ==
     /\ mem' = [mem EXCEPT !.dst = IF ret THEN BltResult(@, mem.src, gd, gs, sx, sy, dx, dy, w, h) ELSE @]
     /\ UNCHANGED <<img, reg>>
 
+(* pixman_blt within ONE buffer (scrolling, packing or spreading the lines of a frame, flipping it about a line):  *)
+(* source and destination rows are described over the same storage.  Precondition (the caller's): a source row is  *)
+(* either the very destination row it is copied to, or touches no destination row at all - then the order in which *)
+(* rows and bytes are copied cannot matter and "copies exactly the rectangle" has one meaning: every destination   *)
+(* row holds what its source row held before the call.  TRUE with that effect, or FALSE and nothing changed.       *)
+SpanApart(a, b) == a[2] <= b[1] \/ b[2] <= a[1] \/ a[1] = a[2] \/ b[1] = b[2]
+BltInPlacePre(gs, gd, sx, sy, dx, dy, w, h) ==
+    LET ds == RectSpans(gd, dx, dy, w, h)
+        ss == RectSpans(gs, sx, sy, w, h) IN
+    AsValue(/\ w >= 0 /\ h >= 0 /\ SpansInside(ds, mem.dst) /\ SpansDisjoint(ds) /\ SpansInside(ss, mem.dst)
+            /\ \A j, k \in DOMAIN ds : (j = k /\ ss[j] = ds[k]) \/ SpanApart(ss[j], ds[k]))
+
+BltInPlace(gs, gd, sx, sy, dx, dy, w, h, ret) ==
+    /\ BltInPlacePre(gs, gd, sx, sy, dx, dy, w, h)
+    /\ AsValue(ret => gs.bpp = gd.bpp)
+    /\ mem' = [mem EXCEPT !.dst = IF ret THEN BltResult(@, mem.dst, gd, gs, sx, sy, dx, dy, w, h) ELSE @]
+    /\ UNCHANGED <<img, reg>>
+
 -----------------------------------------------------------------------------
 (* Images: which bits of the allocation belong to which pixel.               *)
 (* geometry of an image: g = [bpp, stride, off, w, h]                        *)
